@@ -51,6 +51,9 @@ func litAtom(r rune, spell int, inBracket bool) atom {
 		}
 		return atom{fmt.Sprintf(`\x%08X`, r), r, 0}
 	}
+	if spell == 1 {
+		return atom{string(r), r, 0} // the character itself (the caller knows that it is unambiguous where it stands)
+	}
 	if spell != 0 {
 		return esc(spell)
 	}
